@@ -8,6 +8,8 @@ import (
 
 	sdkmath "cosmossdk.io/math"
 
+	sdk "github.com/cosmos/cosmos-sdk/types"
+
 	bettypes "github.com/sge-network/sge/x/bet/types"
 	housetypes "github.com/sge-network/sge/x/house/types"
 	obtypes "github.com/sge-network/sge/x/orderbook/types"
@@ -193,6 +195,8 @@ func (g *Gen) anyMarket() *gMarket {
 }
 
 func bi(x int64) *big.Int { return big.NewInt(x) }
+
+func sdkAcc(a string) sdk.AccAddress { return sdk.MustAccAddressFromBech32(a) }
 
 // amount scale for this history: small amounts hit rounding boundaries, large ones the default regime
 func (g *Gen) scale() int64 {
@@ -518,7 +522,202 @@ func (g *Gen) genSend() Op {
 	return Op{Kind: "SEND", From: g.user(), To: g.user(), Amount: bi(1 + g.r.Int63n(g.scale()))}
 }
 
-// NextTx draws one transaction for the betting profiles.
+// ---- subaccount ops ---------------------------------------------------------------------------
+func (g *Gen) locks() [][2]*big.Int {
+	n := 1 + g.r.Intn(3)
+	var l [][2]*big.Int
+	for i := 0; i < n; i++ {
+		ts := g.c.Time + int64(pick(g.r, []int{0, 1, 5, 30, 200, 2000}))
+		if g.chance(0.03) {
+			ts = g.c.Time - 1 // already expired: rejected
+		}
+		if g.chance(0.02) {
+			ts = 0
+		}
+		if g.chance(0.05) && len(l) > 0 {
+			ts = l[0][0].Int64() // duplicate unlock time inside one message
+		}
+		l = append(l, [2]*big.Int{bi(ts), bi(g.r.Int63n(g.scale()*3 + 1))})
+	}
+	return l
+}
+
+func (g *Gen) subOwners() []int64 {
+	var l []int64
+	for _, sa := range g.c.App.SubaccountKeeper.GetAllSubaccounts(g.c.Ctx()) {
+		l = append(l, g.c.AccID(sa.Owner))
+	}
+	return l
+}
+
+func (g *Gen) subOwner() int64 {
+	l := g.subOwners()
+	if len(l) == 0 || g.chance(0.05) {
+		return g.user()
+	}
+	return pick(g.r, l)
+}
+
+func (g *Gen) genSubCreate() Op {
+	c := g.user()
+	o := c
+	if g.chance(0.4) {
+		o = g.user()
+	}
+	return Op{Kind: "SCRE", Signer: c, Owner: o, Locks: g.locks()}
+}
+
+func (g *Gen) genSubTopUp() Op {
+	return Op{Kind: "STOP", Signer: g.user(), Owner: g.subOwner(), Locks: g.locks()}
+}
+
+func (g *Gen) genSubWithdraw() Op { return Op{Kind: "SWDU", Signer: g.subOwner()} }
+
+func (g *Gen) genSubWager() Op {
+	o := g.genWager()
+	if o.Kind != "WAG" {
+		return o
+	}
+	o.Kind = "SWAG"
+	o.Signer = g.subOwner()
+	o.Ky = g.kycFor(o.Signer)
+	o.Inner = o.Signer
+	if g.chance(0.03) {
+		o.Inner = g.user()
+	}
+	o.Tk2 = o.Tk
+	o.Tk = g.ticket()
+	if g.chance(0.03) {
+		o.Tk2 = g.badTicket()
+	}
+	sub := new(big.Int).Set(o.Amount)
+	switch g.r.Intn(4) {
+	case 0:
+		sub = big.NewInt(0)
+	case 1:
+		sub = new(big.Int).Rand(g.r, new(big.Int).Add(o.Amount, big.NewInt(1)))
+	}
+	o.SubDed = sub
+	o.MainDed = new(big.Int).Sub(o.Amount, sub)
+	if g.chance(0.03) {
+		o.MainDed.Add(o.MainDed, big.NewInt(1)) // does not add up
+	}
+	return o
+}
+
+func (g *Gen) genSubHouseDeposit() Op {
+	o := g.genDeposit()
+	if o.Kind != "DEP" {
+		return o
+	}
+	o.Kind = "SDEP"
+	o.Signer = g.subOwner()
+	o.Ky = g.kycFor(o.Signer)
+	if g.chance(0.9) {
+		o.Depositor = -1
+	}
+	return o
+}
+
+func (g *Gen) genSubHouseWithdraw() Op {
+	o := g.genWithdraw()
+	if o.Kind != "WDR" {
+		return o
+	}
+	// prefer participations owned by a subaccount
+	ctx := g.c.Ctx()
+	parts, _ := g.c.App.OrderbookKeeper.GetAllOrderBookParticipations(ctx)
+	for _, p := range parts {
+		if id := g.c.AccID(p.ParticipantAddress); id > 1000 && g.chance(0.7) {
+			o.Mkt, o.Pidx = uidNum(p.OrderBookUID), int64(p.Index)
+			if ow, ok := g.c.App.SubaccountKeeper.GetSubaccountOwner(ctx, sdkAcc(p.ParticipantAddress)); ok {
+				o.Signer = g.c.AccID(ow.String())
+			}
+			break
+		}
+	}
+	o.Kind = "SWDR"
+	if o.Signer < 0 {
+		o.Signer = g.subOwner()
+	}
+	o.Ky = g.kycFor(o.Signer)
+	if g.chance(0.9) {
+		o.Depositor = -1
+	}
+	return o
+}
+
+// ---- ovm ops ------------------------------------------------------------------------------------
+func (g *Gen) vault() []int64 {
+	kv, _ := g.c.App.OVMKeeper.GetKeyVault(g.c.Ctx())
+	var l []int64
+	for _, k := range kv.PublicKeys {
+		l = append(l, g.c.keyID(k))
+	}
+	return l
+}
+
+func (g *Gen) genPropose() Op {
+	v := g.vault()
+	n := 4 + g.r.Intn(2)
+	perm := g.r.Perm(NKeyUniverse)
+	var keys []int64
+	for i := 0; i < n; i++ {
+		keys = append(keys, int64(perm[i]))
+	}
+	switch {
+	case g.chance(0.04):
+		keys = keys[:3]
+	case g.chance(0.04):
+		keys = append(keys, int64(perm[n]), int64(perm[n+1]))
+	case g.chance(0.06):
+		keys = append(keys, keys[0]) // duplicate: removed by the handler
+	case g.chance(0.03):
+		keys[1] = -1 // not a key
+	}
+	li := int64(g.r.Intn(len(keys)))
+	if g.chance(0.04) {
+		li = int64(len(keys))
+	}
+	tk := Ticket{Signer: pick(g.r, v), Exp: g.c.Time + int64(1+g.r.Intn(500))}
+	if g.chance(0.06) {
+		tk = g.badTicket()
+	}
+	if g.chance(0.04) {
+		tk.Signer = int64(perm[NKeyUniverse-1]) // maybe unregistered
+	}
+	return Op{Kind: "PROP", Signer: g.user(), Tk: tk, Keys: keys, LeaderIdx: li}
+}
+
+func (g *Gen) genVote() Op {
+	v := g.vault()
+	props, _ := g.c.App.OVMKeeper.GetAllPubkeysChangeProposalsByStatus(g.c.Ctx(), 1)
+	pid := int64(1 + g.r.Intn(3))
+	if len(props) > 0 && g.chance(0.92) {
+		pid = int64(pick(g.r, props).Id)
+	}
+	vi := int64(g.r.Intn(len(v)))
+	tk := Ticket{Signer: v[vi], Exp: g.c.Time + int64(1+g.r.Intn(500))}
+	if g.chance(0.05) {
+		tk.Signer = v[(int(vi)+1)%len(v)] // signed by another registered key
+	}
+	if g.chance(0.04) {
+		tk = g.badTicket()
+	}
+	if g.chance(0.03) {
+		vi = int64(len(v))
+	}
+	vote := int64(2)
+	if g.chance(0.25) {
+		vote = 1
+	}
+	if g.chance(0.03) {
+		vote = 0
+	}
+	return Op{Kind: "VOTE", Signer: g.user(), Tk: tk, VoterIdx: vi, PropID: pid, Vote: vote}
+}
+
+// NextTx draws one transaction according to the profile.
 func (g *Gen) NextTx() Op {
 	type w struct {
 		f func() Op
@@ -527,7 +726,15 @@ func (g *Gen) NextTx() Op {
 	am := len(g.activeMarkets())
 	ws := []w{{g.genMarketAdd, 4}, {g.genMarketUpdate, 2}, {g.genMarketResolve, 3}, {g.genDeposit, 14}, {g.genWithdraw, 6},
 		{g.genWager, 30}, {g.genGrant, 4}, {g.genSend, 1}}
-	if am == 0 {
+	switch g.profile {
+	case "sub":
+		ws = append(ws, w{g.genSubCreate, 6}, w{g.genSubTopUp, 5}, w{g.genSubWithdraw, 10}, w{g.genSubWager, 14},
+			w{g.genSubHouseDeposit, 8}, w{g.genSubHouseWithdraw, 4})
+		ws[5].w = 12
+	case "ovm":
+		ws = []w{{g.genMarketAdd, 4}, {g.genMarketUpdate, 2}, {g.genPropose, 10}, {g.genVote, 40}, {g.genSend, 1}}
+	}
+	if am == 0 && g.profile != "ovm" {
 		ws[0].w = 40
 	}
 	if am >= 3 {
